@@ -374,8 +374,8 @@ class Planner:
             kinds = []
             n_clients = 1
         else:
-            kinds = [k for k in self.kinds_pool if fr.random() < 0.7]
-            n_clients = wr.choice([1, 2, 2, 3, 3, 4])
+            kinds = [k for k in self.kinds_pool if fr.random() < (0.9 if k == 'preempt' else 0.7)]
+            n_clients = wr.choice([1, 2, 2, 2, 3, 3, 3, 4])
         hot = wr.choice(sorted(self.infos))
         clients = []
         next_id = max(self.infos) + 1
